@@ -205,31 +205,14 @@ theorem C18_kinds_as_modelled :
     simp only [Bool.false_eq_true, ↓reduceIte, true_iff]
     exact fun h' => h (key.mpr h')
 
-/-! ### A clause that does not hold of the pinned tree
-
-`setattr_validate_property` calls `traitd->validate` and `traitd->post_setattr`
-without a NULL test (ctraits.c:2778-2783).  `_trait_set_property` installs the
-three together, but `trait.post_setattr = None` (ctraits.c:5038-5041) resets
-`post_setattr` to NULL on its own.  The full clause is kept as a statement; it
-is proved for traits on which that one assignment is not performed, and refuted
-by the witness the oracle replays (`obj.trait('p').post_setattr = None;
-obj.p = 1` for `p = Property(Int)`: a NULL call). -/
-
-/-- Constructible without `trait.post_setattr = None`. -/
-inductive ConstructibleNoReset : Fns → Prop where
-  | new {k t} : traitNew k = some t → ConstructibleNoReset t
-  | step {t t'} (op : Op) : ConstructibleNoReset t → op ≠ .setPostSetattr false →
-      apply t op = some t' → ConstructibleNoReset t'
-  | restore {s i t} : ConstructibleNoReset s → getstateIdx s = some i → setstateIdx i = some t →
-      ConstructibleNoReset t
-
-/-- Full-strength clause: a trait whose `setattr` is `setattr_validate_property`
-has the two pointers that handler calls. -/
-def C18_validated_property_complete : Prop :=
-  ∀ t, Constructible t → t.setattr = "setattr_validate_property" →
-    t.validate ≠ NULL ∧ t.postSetattr ≠ NULL
-
-theorem C18_validated_property_complete_partial {t : Fns} (h : ConstructibleNoReset t)
+/-- **A validated property is complete.**  `setattr_validate_property` calls
+`traitd->validate` and `traitd->post_setattr` (which holds the property
+setter) without a NULL test: for every constructible trait whose `setattr` is
+that handler, both are there.  `_trait_set_property` installs the three
+together, and `trait.post_setattr = …` no longer touches the slot of a
+validated property (F77 repair; before it `trait.post_setattr = None` stored
+NULL and `obj.p = 1` was a NULL call). -/
+theorem C18_validated_property_complete {t : Fns} (h : Constructible t)
     (hs : t.setattr = "setattr_validate_property") : t.validate ≠ NULL ∧ t.postSetattr ≠ NULL := by
   induction h with
   | new hn =>
@@ -245,7 +228,7 @@ theorem C18_validated_property_complete_partial {t : Fns} (h : ConstructibleNoRe
       rw [hs] at this
       exact absurd this (by decide)
     · cases hn
-  | step op _ hne ha ih =>
+  | step op _ ha ih =>
     rename_i t t'
     cases op with
     | setValidate kind =>
@@ -276,36 +259,41 @@ theorem C18_validated_property_complete_partial {t : Fns} (h : ConstructibleNoRe
           exact ⟨fv.2.1, fs.2.1⟩
       · cases ha
     | setPostSetattr b =>
-      cases b
-      · exact absurd rfl hne
-      · simp only [apply] at ha
+      simp only [apply] at ha
+      split at ha
+      · cases ha
+        exact ih hs
+      · rename_i hne
         cases ha
-        exact ⟨(ih hs).1, misc_facts.2.2.2.2.2⟩
+        exact absurd hs hne
   | restore _ hg hr ih =>
     rw [roundtrip_eq hg hr] at hs ⊢
     exact ih hs
 
-/-- The witness: `CTrait(4)`, `property_fields = (get, set, validate)`, then
-`post_setattr = None`. -/
-theorem C18_validated_property_complete_fails_at : ¬ C18_validated_property_complete := by
-  intro h
-  have c0 : Constructible ⟨"getattr_event", "setattr_event", NULL, NULL, NULL⟩ :=
-    .new (k := 4) (by decide)
-  have c1 := Constructible.step (.setProperty 1 2 1 true) c0
-    (t' := ⟨"getattr_property1", "setattr_validate_property", "setattr_property2", "setattr_validate1", NULL⟩)
-    (by decide)
-  have c2 := Constructible.step (.setPostSetattr false) c1
-    (t' := ⟨"getattr_property1", "setattr_validate_property", NULL, "setattr_validate1", NULL⟩) (by decide)
-  exact (h _ c2 rfl).2 rfl
+/-- Regression example, the input of finding F77: `CTrait(4)`,
+`property_fields = (get, set, validate)`, `post_setattr = None` - the setter
+is still in place. -/
+example :
+    (apply ⟨"getattr_property1", "setattr_validate_property", "setattr_property2", "setattr_validate1", NULL⟩
+      (.setPostSetattr false)) =
+      some ⟨"getattr_property1", "setattr_validate_property", "setattr_property2", "setattr_validate1", NULL⟩ := by
+  decide
 
-/-- Two more handlers `trait_new` installs dereference a field `trait_new`
-leaves NULL (`getattr_delegate`/`setattr_delegate`: `delegate_name`, ctraits.c:2027-2031;
-`getattr_constant`: `default_value`, ctraits.c:2091): a bare `CTrait(3)` or
-`CTrait(7)` is a NULL dereference waiting for the first attribute access.  The
-oracle replays both (`crash:raw-ctrait:*`). -/
-theorem C18_bare_kinds_incomplete :
-    (∃ t, traitNew 3 = some t ∧ t.getattr = "getattr_delegate" ∧ t.setattr = "setattr_delegate") ∧
-    (∃ t, traitNew 7 = some t ∧ t.getattr = "getattr_constant") := by
+/-- **Bare kinds are answered, not dereferenced.**  `trait_new` installs, for
+`TraitKind.delegate` and `TraitKind.constant`, handlers that read a field
+`trait_new` leaves NULL (`delegate_name` / `delegate_attr_name`,
+`default_value`); a directly built `CTrait(0)` with a container default type
+has no `handler` for `call_class`.  After the NULL tests (repairs of F75, F76,
+F78) the outcome of using such a trait is modelled (`probeGet/Set/Del`) and is
+an exception class or a value: DelegationError (a TraitError) for an undefined
+delegate, None / "Cannot modify the constant" for a constant without default,
+TraitError for a container default without handler.  The correspondence
+(`T|…;probe`) compares exactly these with the real extension. -/
+theorem C18_bare_kinds_answered :
+    (∃ t, traitNew 3 = some t ∧ probeGet ⟨t, false, 0⟩ = .traitError ∧ probeSet ⟨t, false, 0⟩ = .traitError ∧
+      probeDel ⟨t, false, 0⟩ = .traitError) ∧
+    (∃ t, traitNew 7 = some t ∧ probeGet ⟨t, false, 0⟩ = .ok ∧ probeSet ⟨t, false, 0⟩ = .traitError) ∧
+    (∃ t, traitNew 0 = some t ∧ ∀ k ∈ [5, 6, 9], probeGet ⟨t, false, k⟩ = .traitError) := by
   decide
 
 /-! Non-vacuity: the hypotheses above are met by real, non-trivial traits. -/
